@@ -258,10 +258,9 @@ func (ir *ifdReader) ParseSubSecTime(t Tag) uint16 {
 	if t.IsType(tag.TypeASCII) || t.IsType(tag.TypeASCIINoNul) {
 		if t.IsEmbedded() {
 			t.EmbeddedValue(ir.buffer.buf[:4])
-			return uint16(parseStrUint(ir.buffer.buf[:4]))
+			return subSecMillis(ir.buffer.buf[:4])
 		}
-		buf := ir.ParseBuffer(t)
-		return uint16(parseStrUint(buf) / 1000)
+		return subSecMillis(ir.ParseBuffer(t))
 	}
 	if ir.logLevelWarn() {
 		t.logTag(ir.logWarn()).Msg("Unrecognized tag type")
